@@ -526,3 +526,25 @@ V("C14-b12", "C14", (SW, "    return RepresentationCode.ULONG.convert(value + UL
   "R14.6", "time.time() on the byte path")
 V("C14-b13", "C14", (ORIGIN, "            self.creation_time.value = datetime.now()", "            self.creation_time.value = datetime.now()\n            self.program.value = f'dliswriter at {datetime.now()}'"),
   "R14.6", "now() stored into another attribute")
+
+
+# ---------------------------------------------------------------------------------------------- C07 (term rules)
+V("C07-b1", "C07", (FILE, "                    if isinstance(v, EFLRItem) and id(v) not in own_item_ids:",
+                    "                    if isinstance(v, EFLRItem) and attr.label != 'AXIS' and id(v) not in own_item_ids:"),
+  "R07.3", "axis references exempted from the membership check")
+V("C07-b2", "C07", (FILE, "            item for set_dict in self._eflr_sets.values() for eflr_set in set_dict.values()\n            for item in eflr_set.get_all_eflr_items()\n        ]",
+                    "            item for set_dict in self.physical_file._eflr_sets.values() for eflr_set in set_dict.values()\n            for item in eflr_set.get_all_eflr_items()\n        ]"),
+  "R07.3", "membership tested against the whole storage unit")
+V("C07-b3", "C07", (FILE, "                values = attr.value if isinstance(attr.value, (list, tuple)) else [attr.value]", "                values = [attr.value]"),
+  "R07.3", "list-valued references not unpacked")
+V("C07-b4", "C07", (FILE, "        while next_available_origin_ref in origins_refs:\n            next_available_origin_ref += 1\n", ""),
+  "R07.4", "generated origin reference not advanced past taken ones")
+V("C07-b5", "C07", (FILE, "                        if eflr_item.origin_reference is None:\n                            eflr_item.origin_reference = o.origin_reference",
+                    "                        eflr_item.origin_reference = o.origin_reference"), "R07.4", "back-fill overwrites explicit origins")
+V("C07-b6", "C07", (FILE, "        return origins[0] if origins else None", "        return origins[-1] if origins else None"), "R07.4",
+  "defining origin is the last one")
+V("C07-b7", "C07", (FILE, "        self._check_references()\n", "        if self.frames:\n            self._check_references()\n"), "R07.3",
+  "reference check only when there are frames")
+V("C07-t1", "C07", (FILE, "                    if isinstance(v, EFLRItem) and id(v) not in own_item_ids:\n                        raise RuntimeError(f\"{v}, referenced by {attr}, has not been added to the same logical file\")",
+                    "                    if not isinstance(v, EFLRItem):\n                        continue\n                    if id(v) in own_item_ids:\n                        continue\n                    raise RuntimeError(f\"{v}, referenced by {attr}, has not been added to the same logical file\")"),
+  "silent", "guard clauses with continue")
